@@ -816,7 +816,7 @@ def gen_deltas_exhaustive(chk, thorough):
     sizes = [2, 3, 2, 1]
     for D, td, conc, dim in deltas_layouts(4):
         if thorough:
-            chosen = [opts[(k * 7 + j * 5) % len(opts)] for j in range(6)]
+            chosen = [opts[(k * 7 + j * 5) % len(opts)] for j in range(16)]
         else:
             chosen = [opts[(k * 7) % len(opts)]] if (D < 4 or k % 3 == 0) else []
         for (o, w, m) in chosen:
@@ -973,13 +973,13 @@ def gen_cases(chk):
         "ops: every ordered partition of %d fixed frames (alternate blocks reversed), store flags rotating; "
         "deltas: every (ndim<=4, time_dim, concatenate, dim) layout incl. negative arguments, %s; "
         "returns: T<=%d x N<=2 x %d dyadic gammas (incl. 0, 1, >1, negative) x both layouts, compared bit-exactly"
-        % (5 if th else 4, "6 (order,width,mode) combinations each" if th else "one rotating (order,width,mode) each (every third 4-D layout)",
+        % (5 if th else 4, "16 of the 48 (order,width,mode) combinations each" if th else "one rotating (order,width,mode) each (every third 4-D layout)",
            5 if th else 4, 9 if th else 6))
     for c in load_corpus("C18"):
         c = dict(c.get("case", c))
         c["stream"] = "corpus"
         cases.append(c)
-    mult = 8 if th else 1
+    mult = 24 if th else 1
     for _ in range(120 * mult):
         cases.append(gen_ops_random(rng))
     for _ in range(30 * mult):
